@@ -165,7 +165,9 @@ class DumpSites(Suite):
         for side in ("fallback", "pydantic"):
             r = o[side]
             if not r.get("ok"):
-                return f"helper raised under the {side} backend: {r.get('exc')} {r.get('msg', '')}"
+                # the recipe could not drive the helper (renamed, re-plumbed, raising): C10 says nothing
+                # about that — the case is counted as not executed (see `kind`), never as a divergence
+                return None
             if not schema_h.same(self._model_part(case, r["emitted"]), m["dump"]):
                 return f"emitted value differs from the model's dump with the site's static flags ({side})"
         return None
@@ -182,7 +184,11 @@ class DumpSites(Suite):
         return None
 
     def kind(self, case, o):
-        return "dump-sites/" + case["helper"]
+        ran = o["pydantic"].get("ok") and o["fallback"].get("ok")
+        return "dump-sites/" + case["helper"] + ("" if ran else "/not-executed")
+
+    def nontrivial(self, case, o):
+        return bool(o["pydantic"].get("ok") and o["fallback"].get("ok"))
 
     def shrink_candidates(self, case):
         from ..schema_suites import py_conforms, shrink_json
